@@ -146,6 +146,11 @@ def run(ctx):
     edge.append((["main", S.join(["-i", "", "-o", "o", "-p"]), "-"], False, "empty input"))
     edge.append((["main", S.join(["-i", "i", "--output=", "-a", "-d", "dump.txt"]), "-"], False, "empty output (--output=)"))
     edge.append((["main", S.join(["-c", "@CFG@", "-a"]), "input=i\noutput=\n"], False, "empty output (config)"))
+    # a dump request whose value is the empty string is still a dump request: without -a it is rejected like any other
+    edge.append((["main", S.join(["-i", "i", "-o", "o", "-p", "-d", ""]), "-"], False, "empty dump path without -a"))
+    edge.append((["main", S.join(["-i", "i", "-o", "o", "-w", "x", "--dump-ip-map="]), "-"], False, "empty dump path (--dump-ip-map=) without -a"))
+    edge.append((["main", S.join(["-i", "i", "-o", "o", "-u", "-s", "s", "-d", ""]), "-"], False, "empty dump path with undo, without -a"))
+    edge.append((["main", S.join(["-i", "i", "-o", "o", "-a", "-d", ""]), "-"], True, "empty dump path with -a"))
     eo = vlib.run_impl([e[0] for e in edge])
     for (c, ok, what), o in zip(edge, eo):
         if ok != o.startswith("CALL"):
